@@ -184,9 +184,7 @@ Definition wrapper_close_ok (c : cfg) (fallback offset : Z) (cause : nat) (s : Z
 (* ---- 5. "invalid close code" fallback.  When the responder returned or failed with anything
    but an HTTP error / status (causes 0 and 4) and the server rejects a close the wrapper sends
    with an "invalid close code" error, the wrapper must try again (with the fallback code),
-   unless the rejected close already carried the fallback.  (Evaluated on every real session, which the correspondence
-   shows to coincide with the model's; Example C17_invalid_close_code_fallback checks the key
-   case; not yet a general Coq theorem -- see notes.) *)
+   unless the rejected close already carried the fallback.  (Proved of the model: C17_wrapper_retries_after_invalid_close_code.) *)
 Fixpoint retry_ok (fallback : Z) (l : list (event * sfail)) : bool :=
   match l with
   | [] => true
